@@ -567,7 +567,9 @@ pub fn run_faults(tier: &str, threads: usize, max_wall_s: f64) -> FaultOutcome {
         let live = Arc::new(live);
         let reopen = Arc::new(reopen);
         for p in pts {
-            for errno in faultable(&p.syscall) {
+            // quick: one errno per call (the first = the most plausible one); thorough: all
+            let errnos: &[&'static str] = if tier == "quick" { &faultable(&p.syscall)[..1] } else { faultable(&p.syscall) };
+            for errno in errnos {
                 for mode in ["retry", "reopen"] {
                     work.push(Work { h: h.clone(), live: live.clone(), reopen: reopen.clone(), p: p.clone(), errno, mode });
                 }
